@@ -380,7 +380,7 @@ fn run(cfg: &Cfg) -> Report {
     ));
     if !rep.failed() {
         let depth = cfg.tier.pick(4u32, 6u32);
-        let cases = cfg.tier.pick(4000u32, 50000u32);
+        let cases = cfg.tier.pick(10000u32, 80000u32);
         rep.absorb(run_proptest(
             cfg,
             "trees",
